@@ -227,3 +227,18 @@ Definition id_fuel : nat := N.to_nat 65537.
 Definition create_session (used : N -> bool) (count next : N) : res (N * N) :=
   if 65535 <=? count then Err else
   id <- fst (scan_id id_fuel used next 0) ;; Ok (id, next_id id).
+
+(* n successive CreateSession calls on one table (a PADR flood after the table was filled to a
+   boundary).  One row per attempt: [1; id; cursor afterwards] or [0] when refused (table full). *)
+Fixpoint create_seq (n : nat) (used : N -> bool) (count next : N) : res rows :=
+  match n with
+  | O => Ok []
+  | S n' =>
+      match create_session used count next with
+      | Ok (id, nx) =>
+          r <- create_seq n' (fun x => (x =? id) || used x) (count + 1) nx ;; Ok ([1; id; nx] :: r)
+      | Err => r <- create_seq n' used count next ;; Ok ([0] :: r)
+      | Panic => Panic
+      | Hang => Hang
+      end
+  end.
